@@ -163,8 +163,174 @@ def to_legacy(rng, case):
     return out
 
 
+def rand_segs(rng, L, max_segs):
+    """(offset, length) pairs cut from a stream of length L: a shuffled partition with duplicates and re-cut
+    retransmissions, or arbitrary overlapping / stale / empty segments"""
+    segs = []
+    if rng.random() < 0.5 and L:
+        cuts = sorted(set([0, L] + [rng.randint(0, L) for _ in range(rng.randint(0, max_segs))]))
+        segs = [(a, b - a) for a, b in zip(cuts, cuts[1:])]
+        segs += [rng.choice(segs) for _ in range(rng.randint(0, 2))]
+        for _ in range(rng.randint(0, 2)):
+            a = rng.randint(0, L); segs.append((a, rng.randint(0, L - a)))
+        if rng.random() < 0.3:
+            segs.pop(rng.randrange(len(segs)))          # a hole that may stay open
+    else:
+        for _ in range(rng.randint(0, max_segs)):
+            a = rng.randint(-4, L)
+            ln = rng.randint(0, max(0, L - a))
+            if a < 0 and rng.random() < 0.5:
+                ln = rng.randint(0, -a)
+            segs.append((a, ln))
+    rng.shuffle(segs)
+    return [(a, min(ln, L - a) if a + ln > L else ln) for a, ln in segs]
+
+
+def seg_bytes(rng, s, a, ln):
+    return bytes(rng.randrange(256) for _ in range(max(0, min(-a, ln)))) + s[max(a, 0):max(a + ln, 0)]
+
+
+# raw `ip_addr_` values: the numeric order of the stored member differs from the order of the dotted form
+HOSTS = [0x0200000A, 0x0100000A, 0x01000002, 0x02000001, 0xFFFFFFFF, 1]   # not 0: IP::serialize fills in a source address for 0.0.0.0
+FIN, SYN, RST, PSH, ACK = 1, 2, 4, 8, 16
+
+
+def conn_script(rng, idx, tup, big=False):
+    """one scripted connection of the legacy follower: declaration line + packet lines (in the connection's own order).
+    Handshake, data both ways (reordered, duplicated, overlapping, stale-start; ISNs at and across the wrap), then FIN or
+    RST from either side (with or without data), then packets after the end."""
+    ca, sa, cp, sp = tup
+    def stream():
+        L = rng.choice([0, 1, 2, 3, 5, 8, 13, 24, rng.randint(0, 48)])
+        if big:
+            L = rng.randint(40, 1500)
+        return bytes(rng.randrange(256) for _ in range(L))
+    sc, ss = stream(), stream()
+    def isn(L):
+        r = rng.random()
+        if r < 0.35 and L:
+            return (2**32 - rng.randint(0, L)) % 2**32          # the stream crosses the wrap point
+        return rng.choice(BOUNDARY_ISNS) if r < 0.8 else rng.randrange(2**32)
+    cisn, sisn = isn(len(sc)), isn(len(ss))
+    decl = f"mconn {idx} {ca} {sa} {cp} {sp} {cisn} {sisn} {hexs(sc)} {hexs(ss)}"
+    def pkt(from_client, flags, seq, ack, payload, off=None):
+        a, b, p, q = (ca, sa, cp, sp) if from_client else (sa, ca, sp, cp)
+        op = "mpktp" if rng.random() < 0.25 else "mpkt"
+        pl = "~" if payload is None else hexs(payload)
+        return f"{op} {a} {b} {p} {q} {flags} {seq % 2**32} {ack % 2**32} {pl}" + (f" @{off}" if off is not None else "")
+    out = [pkt(True, SYN, cisn - 1, 0, None)]
+    if rng.random() < 0.1:
+        out.append(pkt(True, SYN, cisn - 1, 0, None))             # retransmitted SYN
+    out.append(pkt(False, SYN | ACK, sisn - 1, cisn, None))
+    if rng.random() < 0.6:
+        out.append(pkt(True, ACK, cisn, sisn, None))
+    data = [(True, a, ln) for a, ln in rand_segs(rng, len(sc), 40 if big else 7)] + \
+           [(False, a, ln) for a, ln in rand_segs(rng, len(ss), 40 if big else 7)]
+    rng.shuffle(data)
+    def data_pkt(fc, a, ln, flags):
+        s, i, other = (sc, cisn, sisn) if fc else (ss, sisn, cisn)
+        return pkt(fc, flags, i + a, other, seg_bytes(rng, s, a, ln), a)
+    last = None
+    if data and rng.random() < 0.4:
+        last = data.pop()
+    for fc, a, ln in data:
+        out.append(data_pkt(fc, a, ln, ACK | (PSH if rng.random() < 0.3 else 0)))
+        if rng.random() < 0.05:
+            out.append(pkt(fc, ACK, (cisn if fc else sisn) + a, 0, None))     # bare ACK
+    r = rng.random()
+    if r < 0.92:
+        endflags = rng.choice([FIN | ACK, FIN, RST, RST | ACK, FIN | RST | ACK])
+        if last is not None:
+            out.append(data_pkt(last[0], last[1], last[2], endflags))        # FIN / RST segment carrying data
+        else:
+            fc = rng.random() < 0.5
+            out.append(pkt(fc, endflags, (cisn + len(sc)) if fc else (sisn + len(ss)), 0, None))
+        # after the end: the other side's FIN, a late retransmission, a bare ACK -- none of them may reach a functor
+        for _ in range(rng.randint(0, 3)):
+            fc = rng.random() < 0.5
+            k = rng.random()
+            if k < 0.4:
+                out.append(pkt(fc, rng.choice([FIN | ACK, RST, ACK]), (cisn + len(sc)) if fc else (sisn + len(ss)), 0, None))
+            else:
+                s = sc if fc else ss
+                a = rng.randint(0, len(s)); ln = rng.randint(0, len(s) - a)
+                out.append(data_pkt(fc, a, ln, ACK))
+    else:
+        if last is not None:
+            out.append(data_pkt(last[0], last[1], last[2], ACK))
+        return decl, out, False
+    return decl, out, True
+
+
+def wild_script(rng, tup):
+    """packets of a 4-tuple the oracle knows nothing about (model / implementation correspondence and the frame clause
+    only): no SYN at all, a SYN+ACK first, a RST answering the SYN, data before the handshake completes"""
+    ca, sa, cp, sp = tup
+    def pkt(fc, flags, seq, ack, payload):
+        a, b, p, q = (ca, sa, cp, sp) if fc else (sa, ca, sp, cp)
+        return f"mpkt {a} {b} {p} {q} {flags} {seq % 2**32} {ack % 2**32} {'~' if payload is None else hexs(payload)}"
+    out = []
+    style = rng.random()
+    isn = rng.choice(BOUNDARY_ISNS)
+    if style < 0.25:                        # never opened
+        out += [pkt(rng.random() < 0.5, rng.choice([ACK, SYN | ACK, FIN | ACK, RST]), isn, 5, rng.choice([None, b"", b"\x01\x02"]))
+                for _ in range(rng.randint(1, 4))]
+    elif style < 0.5:                       # connection refused: the session never completes its handshake
+        out += [pkt(True, SYN, isn - 1, 0, None), pkt(False, RST | ACK, 0, isn, None), pkt(True, ACK, isn, 1, b"\x07")]
+    elif style < 0.75:                      # data and FIN before the SYN+ACK, SYN+ACK from the client side
+        out += [pkt(True, SYN, isn - 1, 0, None), pkt(True, ACK, isn, 0, b"\x01\x02"), pkt(False, FIN | ACK, 7, isn, None),
+                pkt(True, SYN | ACK, 99, 1000, None), pkt(True, ACK, 1000, 0, b"\x03"), pkt(False, ACK, 100, 0, b"\x04\x05"),
+                pkt(False, ACK | FIN, 102, 0, b"\x06")]
+    else:                                   # simultaneous open / SYN carrying data / second SYN+ACK
+        out += [pkt(True, SYN, isn - 1, 0, b"\x09"), pkt(False, SYN, 41, 0, None), pkt(False, SYN | ACK, 41, isn, None),
+                pkt(True, ACK, isn, 42, b"\x01"), pkt(False, SYN | ACK, 77, isn + 1, None), pkt(False, ACK, 42, 0, b"\x02\x03"),
+                pkt(True, RST, isn + 1, 0, b"\x04")]
+    return out
+
+
+def session_case(rng, big=False):
+    """2-4 scripted connections interleaved through one TCPStreamFollower: same ports on swapped hosts, one port different,
+    ports swapped; sometimes one of them is closed and re-opened (a new stream with the next identifier), sometimes packets
+    of an undeclared 4-tuple run in between"""
+    a, b, c = rng.sample(HOSTS, 3)
+    p, q = rng.choice([(4321, 80), (80, 80), (0, 65535), (1024, 1025)])
+    # (a,b,q,p) would be the reverse of (b,a,p,q): the same connection as far as any follower can tell
+    # (and with p == q the swapped hosts are the reverse tuple as well)
+    tuples = [(a, b, p, q), (b, a, p, q) if p != q else (c, b, p, q), (a, b, p, (q + 1) % 65536), (a, c, p, q)]
+    n = rng.randint(2, 4)
+    rng.shuffle(tuples)
+    decls, scripts = [], []
+    for i in range(n):
+        d, sc, ended = conn_script(rng, i, tuples[i], big and i == 0)
+        decls.append(d)
+        if ended and rng.random() < 0.2:
+            d2, sc2, _ = conn_script(rng, i, tuples[i])  # the same 4-tuple again after the first incarnation ended
+            sc = sc + [d2] + sc2
+        scripts.append(sc)
+    if rng.random() < 0.3:
+        scripts.append(wild_script(rng, rng.choice([(c, a, p, q), (c, b, 5, 6), (b, b, 7, 7), (b, a, q, p)])))
+    out = ["minit"] + decls
+    idx = [0] * len(scripts)
+    live = [i for i in range(len(scripts)) if scripts[i]]
+    while live:
+        i = rng.choice(live)
+        out.append(scripts[i][idx[i]])
+        idx[i] += 1
+        if idx[i] == len(scripts[i]):
+            live.remove(i)
+    return out
+
+
 def classify(op, impl):
     w = op.split(" ")
+    if w[0] in ("mpkt", "mpktp"):
+        ev = impl.split(" ")[0] if impl.startswith("ev=") else "?"
+        fl = int(w[5]) if len(w) > 5 and w[5].isdigit() else 0
+        tag = w[0] + ":" + "".join(n for b, n in ((SYN, "S"), (ACK, "A"), (FIN, "F"), (RST, "R")) if fl & b)
+        tag += ":data" if len(w) > 8 and w[8] != "~" else ":bare"
+        tag += ":" + ("D" if "D" in ev else "") + ("E" if "E" in ev else "") if ev not in ("ev=-", "?") else ""
+        tag += ":nsess=" + str(0 if impl.endswith("sess=-") else impl.count(";") + 1) if " sess=" in impl else ""
+        return tag
     if w[0] not in ("seg", "fseg", "fsegp", "lseg", "lsegp"):
         return w[0]
     tag = w[0]
@@ -182,13 +348,13 @@ def classify(op, impl):
 
 
 def sig_of(kind, detail, case):
-    fam = {"i": "tracker", "f": "flow", "l": "legacy"}.get(case[0][:1], "?") if case else "?"
+    fam = {"i": "tracker", "f": "flow", "l": "legacy", "m": "sessions"}.get(case[0][:1], "?") if case else "?"
     return {"kind": kind, "family": fam, "clause": detail.split(" ")[1] if kind == "spec" else ""}
 
 
 HARNESSES = [("c06_tracker", (), ("init",), lambda rng, c: c),
              ("c06_flow", (), ("finit",), to_flow),
-             ("c06_legacy", ("-fno-access-control",), ("linit",), to_legacy)]
+             ("c06_legacy", ("-fno-access-control",), ("linit", "minit"), to_legacy)]
 
 
 def build_all():
@@ -232,6 +398,12 @@ def run(chk):
         for c in cases[::step]:
             ops += conv(rng, c)
         stats += corr.correspond(chk, AREA, exes[name], ops, case_start=start, classify=classify, sig_of=sig_of)
+    # the legacy follower's session table: interleaved scripted connections (Driver/C06Sessions.lean)
+    nsess = 1200 if chk.tier == "quick" else 20000
+    ops = []
+    for i in range(nsess):
+        ops += session_case(rng, big=(i % 40 == 0))
+    stats += corr.correspond(chk, AREA, exes["c06_legacy"], ops, case_start=("linit", "minit"), classify=classify, sig_of=sig_of)
     if chk.tier == "thorough":
         # streams up to 64 KiB with up to 400 segments (the oracle slices the stream per buffered chunk per
         # operation, so these are few: about 30 s of oracle time for each stream above 32 KiB)
